@@ -93,7 +93,7 @@ class Job:
         if rc != 0:
             self.status = "error"; self.reason = "goto-instrument (checks) failed"; return self._fin(log, t0)
         cur = "c.gb"
-        flags = ["--no-standard-checks", "--unwinding-assertions", "--trace"] + self.cbmc_flags
+        flags = ["--no-standard-checks", "--unwinding-assertions", "--slice-formula", "--trace"] + self.cbmc_flags
         if self.split and self.split > 1:
             out, rc = self._run_split(d, cur, flags, log)
         else:
